@@ -2,6 +2,7 @@ package refsem
 
 import (
 	"fmt"
+	"strconv"
 
 	"github.com/opsidian/parsley/ast"
 	"github.com/opsidian/parsley/parsley"
@@ -60,6 +61,16 @@ func (v *Validator) Valid(n parsley.Node, e *gram.Expr, pos int) bool {
 		}
 		if r, ok := t.Value().(rune); !ok || r != rune(e.C) {
 			return v.fail("terminal value %v", t.Value())
+		}
+		return true
+	case gram.OpStr:
+		lit, ok := n.(parsley.LiteralNode)
+		if !ok || n.Token() != "STRING" || pos >= len(in) || end > len(in) || end <= pos {
+			return v.fail("expected a STRING literal node at %d, got %T %s", pos, n, n.Token())
+		}
+		want, err := strconv.Unquote(in[pos:end])
+		if err != nil || lit.Value() != want {
+			return v.fail("STRING node at %d-%d has value %q, its bytes %q unquote to %q (%v)", pos, end, lit.Value(), in[pos:end], want, err)
 		}
 		return true
 	case gram.OpEmpty:
